@@ -343,7 +343,7 @@ theorem finalHeaders_eq (r : Req) (a : App) (h : hasKey (lit "transfer-encoding"
   · simp
 
 theorem chunkedOf_eq (r : Req) (a : App) (h : hasKey (lit "transfer-encoding") a.headers = false)
-    (hl : hasKey (lit "content-length") a.headers = false) : chunkedOf r a = (r.ver != 0 && a.clen.isNone) := by
+    (_hl : hasKey (lit "content-length") a.headers = false) : chunkedOf r a = (r.ver != 0 && a.clen.isNone) := by
   unfold chunkedOf
   simp only [hasKey_te_start a h, Bool.not_false, Bool.true_or, Bool.and_true]
   rfl
@@ -448,7 +448,7 @@ theorem parseResp_respond (r : Req) (a : App) (tail : Bytes) (wf : WFApp a) (hd 
       · rw [hc] at h; exact absurd h (by decide)
       · exact h
     have hch : chunkedOf r a = true := by rw [chunkedOf_eq r a wf.noTe wf.noLen, hc]; simp [hv]
-    simp only [Option.isNone_none, Bool.and_true, bne_iff_ne, ne_eq, hv, not_false_eq_true, decide_true, ↓reduceIte,
+    simp only [Option.isNone_none, Bool.and_true, bne_iff_ne, ne_eq, hv, not_false_eq_true, ↓reduceIte,
       Option.map_some]
     have hcond : (some (lower (lit "chunked")) == some (lit "chunked")) = true := by decide
     rw [if_pos hcond]
@@ -474,5 +474,35 @@ theorem parseResp_respond (r : Req) (a : App) (tail : Bytes) (wf : WFApp a) (hd 
     have e2 : (payload r a ++ tail).drop L = tail := by rw [← hpl]; exact List.drop_left
     rw [e1, e2, hp]
     simp only [wireHeaders, expectedBody, hc]
+
+
+/-- a response that is not `Delimited` is refused by the parser whatever follows it: it has neither framing header -/
+theorem parseResp_undelimited (r : Req) (a : App) (tail : Bytes) (wf : WFApp a) (hd : ¬ Delimited r a) (fuel : Nat)
+    (hf : (finalHeaders r a).length + 3 ≤ fuel) :
+    parseResp fuel (respond r a ++ tail) = none := by
+  have hc : a.clen = none := by
+    cases h : a.clen with
+    | none => rfl
+    | some L => exact absurd (Or.inl (by rw [h]; rfl)) hd
+  have hv : r.ver = 0 := by
+    by_cases h : r.ver = 0
+    · exact h
+    · exact absurd (Or.inr h) hd
+  have hch : chunkedOf r a = false := by rw [chunkedOf_eq r a wf.noTe wf.noLen, hv]; rfl
+  rw [respond_eq, head, joinCrlf_blank, List.append_assoc]
+  unfold parseResp
+  rw [readHead_lines (headLines r a) (payload r a ++ tail) (headLines_ok r a wf) fuel
+    (by simp only [headLines, List.length_cons, List.length_map]; omega)]
+  simp only [headLines]
+  rw [splitHeaders_packed _ (fun x hx => (final_mem r a wf x hx).2.1)]
+  simp only []
+  have hte : getKey (lit "transfer-encoding") ((finalHeaders r a).map (fun h => (title h.1, h.2))) = none := by
+    rw [getKey_titled, finalHeaders_eq r a wf.noTe, getKey_append, getKey_of_not_hasKey _ _ (hasKey_te_hs2 a wf.noTe), hch]
+    rfl
+  have hcl : getKey (lit "content-length") ((finalHeaders r a).map (fun h => (title h.1, h.2))) = none := by
+    rw [getKey_titled, finalHeaders_eq r a wf.noTe, getKey_append, getKey_cl_hs2 a wf.noLen, hc, hch]
+    rfl
+  rw [hte, hcl]
+  rfl
 
 end Hio.Http.Wsgi
